@@ -1540,12 +1540,37 @@ _RE_FUNCS = {'findall': 1, 'finditer': 1, 'search': 1, 'match': 1, 'fullmatch': 
 class _CompiledPatternUse(ast.NodeTransformer):
     """`NAME.search(s)` with NAME a module constant `re.compile(P[, flags])` that the reviewed tree does not have
     -> `re.search(P, s[, flags=...])`: the same search, spelled the way the tree spelled it before the constant was introduced."""
-    def __init__(self, module, known_names):
+    def __init__(self, module, known_names, cls=None, ref=None):
         self.m, self.known, self.done = module, known_names, []
+        self.cls, self.ref = cls, ref or {}
+
+    def _class_const(self, e):
+        """`Cls.NAME` / `self.NAME` / `cls.NAME` with NAME a class-level `re.compile(...)` the reviewed class does not have."""
+        if not (isinstance(e, ast.Attribute) and isinstance(e.value, ast.Name)):
+            return None
+        owner = None
+        if e.value.id in ('self', 'cls') and self.cls is not None:
+            owner = next((c for c in self.cls.mro() if e.attr in c.attrs), None)
+        elif e.value.id in self.m.classes and e.attr in self.m.classes[e.value.id].attrs:
+            owner = self.m.classes[e.value.id]
+        if owner is None or e.attr in self.ref.get('classes', {}).get(owner.qualname, {}).get('consts', [e.attr]):
+            return None
+        return owner.attrs.get(e.attr)
 
     def visit_Call(self, node):
         self.generic_visit(node)
         f = node.func
+        if isinstance(f, ast.Attribute) and f.attr in _RE_FUNCS and len(node.args) == _RE_FUNCS[f.attr] and not node.keywords:
+            cv = self._class_const(f.value)
+            if isinstance(cv, ast.Call) and _u(cv.func) == 're.compile' and cv.args and _is_pure(cv):
+                flags = cv.args[1] if len(cv.args) > 1 else next((k.value for k in cv.keywords if k.arg == 'flags'), None)
+                new = ast.Call(func=ast.Attribute(value=ast.Name(id='re', ctx=ast.Load()), attr=f.attr, ctx=ast.Load()),
+                               args=[copy.deepcopy(cv.args[0])] + node.args,
+                               keywords=[ast.keyword(arg='flags', value=copy.deepcopy(flags))] if flags is not None else [])
+                _set_lines(new, node)
+                new.args[1:] = node.args
+                self.done.append(_u(node)[:70])
+                return new
         if isinstance(f, ast.Attribute) and f.attr in _RE_FUNCS and isinstance(f.value, ast.Name) and f.value.id not in self.known \
                 and len(node.args) == _RE_FUNCS[f.attr] and not node.keywords:
             vals = self.m.assigns.get(f.value.id) or []
@@ -2653,6 +2678,53 @@ def _new_const_dict(repo, fi, e, ref):
     return None
 
 
+def _new_const_collection(repo, fi, e, ref):
+    """The elements behind `NAME` / `Class.NAME` / `self.NAME` when that is a module- or class-level set / frozenset / tuple / list of
+    at most 8 atoms that the reviewed tree does not have."""
+    m = fi.module
+    val = None
+    if isinstance(e, ast.Name):
+        if e.id in ref.get('modules', {}).get(m.name, [e.id]) or e.id in local_names(fi.node):
+            return None
+        vals = m.assigns.get(e.id) or []
+        val = vals[0] if len(vals) == 1 else None
+    elif isinstance(e, ast.Attribute) and isinstance(e.value, ast.Name):
+        owner = None
+        if e.value.id in ('self', 'cls') and fi.cls is not None:
+            owner = next((c for c in fi.cls.mro() if e.attr in c.attrs), None)
+        elif e.value.id in m.classes and e.attr in m.classes[e.value.id].attrs:
+            owner = m.classes[e.value.id]
+        if owner is None or e.attr in ref.get('classes', {}).get(owner.qualname, {}).get('consts', [e.attr]):
+            return None
+        val = owner.attrs.get(e.attr)
+    if isinstance(val, ast.Call) and isinstance(val.func, ast.Name) and val.func.id in ('frozenset', 'set', 'tuple', 'list') and len(val.args) == 1 and not val.keywords:
+        val = val.args[0]
+    if isinstance(val, (ast.Set, ast.Tuple, ast.List)) and 1 <= len(val.elts) <= 8 and all(_atom(x) for x in val.elts):
+        return val.elts
+    return None
+
+
+class _MembershipInNewConst(ast.NodeTransformer):
+    """`x in NEW` / `x not in NEW` for a new constant collection of atoms -> `x == a or x == b` / `x != a and x != b`."""
+    def __init__(self, repo, fi, ref):
+        self.repo, self.fi, self.ref, self.done = repo, fi, ref, []
+
+    def visit_Compare(self, node):
+        self.generic_visit(node)
+        if len(node.ops) == 1 and isinstance(node.ops[0], (ast.In, ast.NotIn)) and _is_pure(node.left):
+            elts = _new_const_collection(self.repo, self.fi, node.comparators[0], self.ref)
+            if elts is not None:
+                neg = isinstance(node.ops[0], ast.NotIn)
+                parts = [ast.Compare(left=copy.deepcopy(node.left), ops=[ast.NotEq() if neg else ast.Eq()], comparators=[copy.deepcopy(x)]) for x in elts]
+                new = parts[0] if len(parts) == 1 else ast.BoolOp(op=ast.And() if neg else ast.Or(), values=parts)
+                for n in ast.walk(new):
+                    if isinstance(n, (ast.expr,)):
+                        ast.copy_location(n, node)
+                self.done.append(_u(node)[:70])
+                return new
+        return node
+
+
 def _unroll_dict_lookups(repo, fi, ref) -> list[str]:
     """`return T.get(x, d)` / `return T.get(x)` / `return T[x]` for a new constant dictionary T -> `if x == k1: return v1` ... and the
     default (or the KeyError) last."""
@@ -2992,7 +3064,7 @@ def normalise(repo) -> dict:
             if sp.done:
                 log.setdefault(q, []).extend(f'tuple prefix test -> or: {x}' for x in sp.done)
             if 're' in fi.module.imports and fi.module.name in ref.get('modules', {}):
-                cp = _CompiledPatternUse(fi.module, set(ref['modules'][fi.module.name]) | local_names(fi.node) | {a.arg for a in fi.node.args.args})
+                cp = _CompiledPatternUse(fi.module, set(ref['modules'][fi.module.name]) | local_names(fi.node) | {a.arg for a in fi.node.args.args}, fi.cls, ref)
                 cp.visit(fi.node)
                 if cp.done:
                     log.setdefault(q, []).extend(f'new pre-compiled pattern used in place: {x}' for x in cp.done)
@@ -3032,6 +3104,10 @@ def normalise(repo) -> dict:
             d = _expand_get_none_test(repo, fi, set(ref_funcs[key].get('assigns', [])))
             if d:
                 log.setdefault(q, []).extend(f'get + None test -> membership test: {x}' for x in d)
+            mb = _MembershipInNewConst(repo, fi, ref)
+            mb.visit(fi.node)
+            if mb.done:
+                log.setdefault(q, []).extend(f'membership in a new constant collection -> comparisons: {x}' for x in mb.done)
             d = _unroll_dict_lookups(repo, fi, ref)
             if d:
                 log.setdefault(q, []).extend(f'lookup in a new constant dictionary -> if-chain: {x}' for x in d)
